@@ -43,7 +43,18 @@ VerdictC06(c) ==
                         {q \in 1..Len(c.steps) : IsPerm(c.steps[q].x, c.n)}} \cup {0})
              THEN {"tour-longer-than-instance-upper-bound"} ELSE {})
 
-Verdict(c) == IF Prop = "C05" THEN VerdictC05(c) ELSE VerdictC06(c)
+\* the EA on distances far beyond 32 bits (the FEA cannot run there: its table has one entry per possible length):
+\* the same two clauses in BigNat arithmetic.  [n, M: BigNat matrix, steps: <<[x, y: BigNat]>>, big = 1]
+C06BigStep(c, k) ==
+  LET s == c.steps[k] IN
+  IF ~IsPerm(s.x, c.n) THEN {"not-a-permutation"}
+  ELSE (IF s.y # BTourLen(c.M, s.x) THEN {"reported-length-not-exact"} ELSE {})
+       \cup (IF k > 1 /\ IsPerm(c.steps[k - 1].x, c.n)
+                /\ ~BLe(BTourLen(c.M, s.x), BTourLen(c.M, c.steps[k - 1].x))
+             THEN {"ea-accepted-longer-tour"} ELSE {})
+VerdictC06Big(c) == UNION {C06BigStep(c, k) : k \in 1..Len(c.steps)}
+Verdict(c) == IF Prop = "C05" THEN VerdictC05(c)
+              ELSE IF "big" \in DOMAIN c /\ c.big = 1 THEN VerdictC06Big(c) ELSE VerdictC06(c)
 
 Init == tid = 0
 Next == /\ tid < NCases /\ tid' = tid + 1
